@@ -1,3 +1,4 @@
 import ArroyProofs.AuditCmd
 import ArroyProofs.Properties.C17
+import ArroyProofs.Properties.C17Reachable
 #audit Arroy.C17
